@@ -4,7 +4,7 @@ from ._famprop import make
 
 
 def FAMS(tier):
-    return ["W", "WO", "WS"]
+    return ["W", "WO", "WS", "WM"]
 
 
 run, replay = make(
@@ -14,7 +14,7 @@ run, replay = make(
          "dyadic floats; quick: trees of 2 operators only up to arity 2) the emitted module must run on wasmtime AND on an independent "
          "reference interpreter and return what a reference evaluation in binary32 returns, on the complete input grid for arity <=2 "
          "and a pairwise grid for arity 3 (ints incl. -2^31+1, -65, -64, 63, 64, 2^31-1); integer division by zero must trap where the "
-         "VM raises. Outside the subset (one observable program per construct, family WO, and the shape grid WS) the module must agree "
+         "VM raises. Modules with two (thorough: three) functions of DIFFERENT signatures - every ordered pair of the 45 signatures (family WM) - must agree as well. Outside the subset (one observable program per construct, family WO, and the shape grid WS) the module must agree "
          "with the VM or the compilation must fail with an error. Inputs whose result depends on binary32 vs binary64 rounding, integer "
          "overflow or float division by zero are UNSPECIFIED.",
     nontrivial_note="distinct_nontrivial = (function, input) pairs with a specified expectation that were executed on both engines.",
